@@ -237,6 +237,107 @@ def feedAll {μ} (dec : List Byte → Frame) (parse : List Byte → Option μ) (
     let r2 := feedAll dec parse r1.2 segs
     (r1.1 ++ r2.1, r2.2)
 
+/-- `static_cast<int>` of a 64-bit integer (two's complement wrap, as g++ does) -/
+def wrap32 (v : Int) : Int := (v + 2147483648) % 4294967296 - 2147483648
+
+/-- the `id` member of a response written as the integer literal `v`, as `Proto::onRecvJson`
+obtains it through `util::json::GetField(js, "id", int&)`.  `none` = the getter fails (the response
+is dropped, or handed on with id 0 which is never pending).  `fixed = false` is the tree before
+patches/C14-04-json-get-int-range.diff: every literal that nlohmann stores as a 64-bit integer was
+accepted and truncated by `get<int>()` (literals beyond 64 bit become floating point and fail);
+`fixed = true` accepts exactly the values of `int`. -/
+def respIdG (fixed : Bool) (v : Int) : Option Int :=
+  if fixed then
+    (if -2147483648 ≤ v ∧ v ≤ 2147483647 then some v else none)
+  else
+    (if -9223372036854775808 ≤ v ∧ v < 18446744073709551616 then some (wrap32 v) else none)
+
+/-! ## proto.cpp: the three message encoders and the dispatch of a received JSON value
+
+The JSON value is abstract data (`J`); `Json::dump`/`Json::parse` stay abstract functions in the
+theorems (hypothesis `parse (dump j) = some j`). An object is a finite map: an association list
+looked up by the first match (the encoders below build objects with distinct keys). -/
+
+inductive J where
+  | null
+  | bool (b : Bool)
+  | int (v : Int)              -- number_integer / number_unsigned (any size)
+  | float
+  | str (s : String)
+  | arr                        -- an array (content irrelevant to the object dispatch)
+  | obj (fields : List (String × J))
+deriving Repr
+
+def J.isNull : J → Bool
+  | .null => true
+  | _ => false
+
+/-- `js.contains(key)` / `js.at(key)`; `false`/`none` for anything that is not an object -/
+def J.lookup (j : J) (key : String) : Option J :=
+  match j with
+  | .obj fields => (fields.find? (fun f => f.1 == key)).map (·.2)
+  | _ => none
+
+/-- `util::json::GetField(js, key, std::string&)` -/
+def J.getStr (j : J) (key : String) : Option String :=
+  match j.lookup key with
+  | some (.str s) => some s
+  | _ => none
+
+/-- `util::json::GetField(js, key, int&)` with the range check of patches/C14-04 -/
+def J.getInt (j : J) (key : String) : Option Int :=
+  match j.lookup key with
+  | some (.int v) => respIdG true v
+  | _ => none
+
+/-- what `Proto::onRecvJson` hands to the registered callbacks for an object -/
+inductive RMsg where
+  | request (id : Int) (method : String) (params : J)
+  | response (id : Int) (errcode : Int) (result : J)
+deriving Repr
+
+/-- `Proto::onRecvJson` for an object (both callbacks registered) -/
+def recvJsonObj (j : J) : List RMsg :=
+  match j.getStr "jsonrpc" with
+  | none => []
+  | some version =>
+    if version ≠ "2.0" then []
+    else if (j.lookup "method").isSome then
+      match j.getStr "method" with
+      | none => []
+      | some method =>
+        [.request ((j.getInt "id").getD 0) method ((j.lookup "params").getD .null)]
+    else if (j.lookup "result").isSome then
+      match j.getInt "id" with
+      | none => []
+      | some id => [.response id 0 ((j.lookup "result").getD .null)]
+    else
+      match j.lookup "error" with
+      | none => []
+      | some jerr =>
+        match jerr.getInt "code" with
+        | none => []
+        | some code => [.response ((j.getInt "id").getD 0) code .null]
+
+/-- `Proto::sendRequest(id, method, params)` (`id` and `errcode` are C++ `int`s) -/
+def mkRequest (id : Int) (method : String) (params : J) : J :=
+  .obj ([("jsonrpc", .str "2.0"), ("method", .str method)] ++
+        (if id ≠ 0 then [("id", .int id)] else []) ++
+        (if params.isNull then [] else [("params", params)]))
+
+/-- `Proto::sendResult(id, result)` -/
+def mkResult (id : Int) (result : J) : J :=
+  .obj [("jsonrpc", .str "2.0"), ("id", .int id), ("result", result)]
+
+/-- `Proto::sendError(id, errcode, message)` -/
+def mkError (id : Int) (errcode : Int) (message : String) : J :=
+  .obj [("jsonrpc", .str "2.0"), ("id", .int id),
+        ("error", .obj ([("code", .int errcode)] ++ (if message.isEmpty then [] else [("message", .str message)])))]
+
+/-- a C++ `int` -/
+def isInt32 (v : Int) : Prop := -2147483648 ≤ v ∧ v ≤ 2147483647
+instance (v : Int) : Decidable (isInt32 v) := by unfold isInt32; exact inferInstance
+
 /-! ## Rpc: pending-request map + TimeoutMonitor ring -/
 
 /-- a completion callback as the harness scripts it: `tag` identifies it, `chain` = it issues one
@@ -326,21 +427,6 @@ def Rpc.tick (s : Rpc) : Rpc × List REv :=
       let s1 := { s with ring := [] :: others, vn := vn', timerOn := if vn' = 0 then false else s.timerOn }
       s1.completeAll kRequestTimeout items
 
-/-- `static_cast<int>` of a 64-bit integer (two's complement wrap, as g++ does) -/
-def wrap32 (v : Int) : Int := (v + 2147483648) % 4294967296 - 2147483648
-
-/-- the `id` member of a response written as the integer literal `v`, as `Proto::onRecvJson`
-obtains it through `util::json::GetField(js, "id", int&)`.  `none` = the getter fails (the response
-is dropped, or handed on with id 0 which is never pending).  `fixed = false` is the tree before
-patches/C14-04-json-get-int-range.diff: every literal that nlohmann stores as a 64-bit integer was
-accepted and truncated by `get<int>()` (literals beyond 64 bit become floating point and fail);
-`fixed = true` accepts exactly the values of `int`. -/
-def respIdG (fixed : Bool) (v : Int) : Option Int :=
-  if fixed then
-    (if -2147483648 ≤ v ∧ v ≤ 2147483647 then some v else none)
-  else
-    (if -9223372036854775808 ≤ v ∧ v < 18446744073709551616 then some (wrap32 v) else none)
-
 /-- a response with id literal `rid` arrives -/
 def Rpc.respondG (fixed : Bool) (s : Rpc) (rid : Int) (code : Int) : Rpc × List REv :=
   match respIdG fixed rid with
@@ -383,5 +469,164 @@ def Rpc.expire : Nat → Rpc → Rpc × List REv
 /-- the clock advances by `ms` and the loop runs -/
 def Rpc.advance (s : Rpc) (ms : Nat) : Rpc × List REv :=
   Rpc.expire (ms / 1000 + 2) { s with now := s.now + ms }
+
+/-! ## Rpc, server half: `onRecvRequest`, `respond()`, `tobe_respond_`, `respond_timeout_`
+
+The two halves of an `Rpc` object share nothing but `proto_`: the client half (`Rpc` above:
+`id_alloc_`, `request_callback_`, `request_timeout_`) and the server half (`Srv`:
+`method_services_`, `tobe_respond_`, `respond_timeout_`, a second `TimeoutMonitor` with its own
+1-s timer). -/
+
+/-- how the harness scripts the method a request names -/
+inductive Service where
+  | sync (errcode : Int)   -- registered; the callback returns true with this errcode (0 = a result)
+  | async                  -- registered; the callback returns false, the application calls respond() later
+  | unknown                -- not registered
+deriving Repr, DecidableEq
+
+inductive SEv where
+  | called (id : Int)               -- the service callback ran
+  | sent (id : Int) (code : Int)    -- proto_->sendResult(id, …) (code 0) / proto_->sendError(id, code)
+deriving Repr, DecidableEq
+
+def kMethodNotFound : Int := -32601
+
+structure Srv where
+  n       : Nat
+  tobe    : List Int := []            -- tobe_respond_ (a set)
+  ring    : List (List Int) := []     -- respond_timeout_ ring, head = curr_item_
+  vn      : Nat := 0
+  timerOn : Bool := false
+  now     : Nat := 0
+  due     : Nat := 0
+deriving Repr, DecidableEq
+
+def Srv.init (n : Nat) : Srv := { n := n, ring := List.replicate n [] }
+
+/-- `TimeoutMonitor::add` -/
+def Srv.monitorAdd (s : Srv) (id : Int) : Srv :=
+  let ring' := match s.ring with
+    | [] => []
+    | cur :: rest => (cur ++ [id]) :: rest
+  let s1 := { s with ring := ring' }
+  let s2 := if s.vn = 0 then { s1 with timerOn := true, due := s.now + 1000 } else s1
+  { s2 with vn := s.vn + 1 }
+
+/-- `Rpc::respond(id, errcode, result)` / `respond(id, result)` / `respond(id, errcode)`:
+sends whenever `id ≠ 0` — `tobe_respond_` is not consulted — and erases the id -/
+def Srv.respond (s : Srv) (id code : Int) : Srv × List SEv :=
+  if id = 0 then (s, [])
+  else ({ s with tobe := s.tobe.filter (· ≠ id) }, [.sent id code])
+
+/-- `Rpc::onRecvRequest(id, method, params)` -/
+def Srv.recvRequest (s : Srv) (id : Int) (svc : Service) : Srv × List SEv :=
+  match svc with
+  | .unknown => (s, [.sent id kMethodNotFound])
+  | .sync code =>
+    if id ≠ 0 then
+      let s1 := { s with tobe := if s.tobe.contains id then s.tobe else s.tobe ++ [id] }
+      let r := s1.respond id code
+      (r.1, .called id :: r.2)
+    else (s, [.called 0])
+  | .async =>
+    if id ≠ 0 then
+      let s1 := { s with tobe := if s.tobe.contains id then s.tobe else s.tobe ++ [id] }
+      (s1.monitorAdd id, [.called id])
+    else (s, [.called 0])
+
+/-- `TimeoutMonitor::onTimerTick` + `Rpc::onRespondTimeout` for each id: only bookkeeping -/
+def Srv.tick (s : Srv) : Srv :=
+  match s.ring with
+  | [] => s
+  | cur :: rest =>
+    match rest ++ [cur] with
+    | [] => s
+    | items :: others =>
+      let vn' := s.vn - items.length
+      { s with ring := [] :: others, vn := vn', timerOn := if vn' = 0 then false else s.timerOn,
+               tobe := items.foldl (fun t id => t.filter (· ≠ id)) s.tobe }
+
+def Srv.expire : Nat → Srv → Srv
+  | 0, s => s
+  | fuel + 1, s =>
+    if s.timerOn ∧ s.due ≤ s.now then Srv.expire fuel ({ s with due := s.due + 1000 }).tick else s
+
+def Srv.advance (s : Srv) (ms : Nat) : Srv := Srv.expire (ms / 1000 + 2) { s with now := s.now + ms }
+
+/-! ## two peers over a scripted pipe (lossy, reordering, duplicating) -/
+
+structure World where
+  c   : Rpc                          -- the client peer (client half)
+  v   : Srv                          -- the server peer (server half)
+  c2s : List (Int × Service) := []   -- requests in flight: id, the method's kind
+  s2c : List (Int × Int) := []       -- responses in flight: id, code (0 = result)
+deriving Repr
+
+/-- the service chained requests (issued from inside a completion callback) name -/
+def chainSvc : Service := .sync 0
+
+def reqMsgs (svc : Service) (evs : List REv) : List (Int × Service) :=
+  evs.filterMap fun | .sent id => some ((id : Int), svc) | _ => none
+
+def rspMsgs (evs : List SEv) : List (Int × Int) :=
+  evs.filterMap fun | .sent id code => some (id, code) | _ => none
+
+inductive WOp where
+  | request (chain : Bool) (svc : Service)
+  | notify (svc : Service)
+  | deliver (toServer : Bool) (i : Nat)
+  | drop (toServer : Bool) (i : Nat)
+  | dup (toServer : Bool) (i : Nat)
+  | srespond (id code : Int)           -- the server application calls respond()
+  | ctick                              -- the client's request_timeout_ timer fires
+  | stick                              -- the server's respond_timeout_ timer fires
+deriving Repr, DecidableEq
+
+/-- the client receives a response message -/
+def World.clientRecv (w : World) (m : Int × Int) : World × List REv :=
+  let r := w.c.respond m.1 m.2
+  ({ w with c := r.1, c2s := w.c2s ++ reqMsgs chainSvc r.2 }, r.2)
+
+/-- the server receives a request message -/
+def World.serverRecv (w : World) (m : Int × Service) : World × List SEv :=
+  let r := w.v.recvRequest m.1 m.2
+  ({ w with v := r.1, s2c := w.s2c ++ rspMsgs r.2 }, r.2)
+
+def World.step (w : World) : WOp → World × List REv × List SEv
+  | .request chain svc =>
+    let r := w.c.request chain
+    ({ w with c := r.1, c2s := w.c2s ++ reqMsgs svc r.2 }, r.2, [])
+  | .notify svc => ({ w with c2s := w.c2s ++ [(0, svc)] }, [.sent 0], [])
+  | .deliver true i =>
+    match w.c2s[i]? with
+    | none => (w, [], [])
+    | some m => let r := ({ w with c2s := w.c2s.eraseIdx i }).serverRecv m; (r.1, [], r.2)
+  | .deliver false i =>
+    match w.s2c[i]? with
+    | none => (w, [], [])
+    | some m => let r := ({ w with s2c := w.s2c.eraseIdx i }).clientRecv m; (r.1, r.2, [])
+  | .drop true i => ({ w with c2s := w.c2s.eraseIdx i }, [], [])
+  | .drop false i => ({ w with s2c := w.s2c.eraseIdx i }, [], [])
+  | .dup true i => ({ w with c2s := w.c2s ++ (w.c2s[i]?).toList }, [], [])
+  | .dup false i => ({ w with s2c := w.s2c ++ (w.s2c[i]?).toList }, [], [])
+  | .srespond id code =>
+    let r := w.v.respond id code
+    ({ w with v := r.1, s2c := w.s2c ++ rspMsgs r.2 }, [], r.2)
+  | .ctick =>
+    let r := w.c.tick
+    ({ w with c := r.1, c2s := w.c2s ++ reqMsgs chainSvc r.2 }, r.2, [])
+  | .stick => ({ w with v := w.v.tick }, [], [])
+
+def World.run (w : World) : List WOp → World × List REv × List SEv
+  | [] => (w, [], [])
+  | op :: ops =>
+    let r1 := w.step op
+    let r2 := World.run r1.1 ops
+    (r2.1, r1.2.1 ++ r2.2.1, r1.2.2 ++ r2.2.2)
+
+/-- both clocks advance by `ms` and the loop runs (the driver's timed op) -/
+def World.advance (w : World) (ms : Nat) : World × List REv :=
+  let r := w.c.advance ms
+  ({ w with c := r.1, v := w.v.advance ms, c2s := w.c2s ++ reqMsgs chainSvc r.2 }, r.2)
 
 end Tbox.C14
